@@ -135,6 +135,15 @@ def encBlock (C : Cipher) (iv : Bytes) (io : IOB) : IOB × Bytes :=
   (io.xorIn2Out iv, iv)
 end Ofb
 
+/-- `for block in blocks { backend.X_block(block) }` on a slice of in/out blocks (what `BlocksCtx` does for a backend
+    with `ParBlocksSize = U1`, and for the tail of any backend): each block is its own in/out pair. -/
+def foldIO {σ : Type} (mem : σ → IOB → IOB × σ) : σ → List IOB → List IOB × σ
+  | s, [] => ([], s)
+  | s, io :: ios =>
+    let r := mem s io
+    let r2 := foldIO mem r.2 ios
+    (r.1 :: r2.1, r2.2)
+
 /-- keystream application of `ApplyBlockCtx` / `ApplyBlocksCtx`: `block.xor_in2out(&ks)` -/
 def applyKs (ks : Bytes) (io : IOB) : IOB := io.xorIn2Out ks
 
